@@ -136,15 +136,16 @@ where
     where
         I: IntoIterator<Item = (S, P)>,
     {
+        // Resolve duplicated samples before assigning population ids, so that ids remain contiguous
+        let samples: IndexMap<Sample, Population> = iter
+            .into_iter()
+            .map(|(sample_name, population_name)| (sample_name.into(), population_name.into()))
+            .collect();
+
         let mut population_map = population::Map::default();
 
-        Self(IndexMap::from_iter(iter.into_iter().map(
-            |(sample_name, population_name)| {
-                (
-                    sample_name.into(),
-                    population_map.get_or_insert(population_name.into()),
-                )
-            },
+        Self(IndexMap::from_iter(samples.into_iter().map(
+            |(sample, population)| (sample, population_map.get_or_insert(population)),
         )))
     }
 }
